@@ -128,9 +128,44 @@ def gen_flat(rng):
             "rule": root, "profile": "flat"}
 
 
+def gen_quant(rng):
+    """branches whose conditions are quantified conditions (exists / for_all over a further variable u) about the bound
+    rule variable: an alternative has to see the bindings such a condition rejects"""
+    world = G.gen_world(rng, n=rng.randint(3, 6))
+    vars_ = GEN.gen_vars(rng, world, 1, allow_empty=False)
+    vars_[0]["type"] = "P"
+    vars_[0]["kind"] = rng.choice(["list", "gen"])
+    qvars = []
+    counter = itertools.count()
+
+    def cond():
+        if rng.random() < 0.65:
+            # a variable of its own for every quantifier (an exists leaves its witness in the bindings: C01's listed
+            # finding exists-leaves-its-variable-bound)
+            u = f"u{len(qvars)}"
+            qvars.append({"name": u, "type": "P", "dom": [rng.randrange(len(world)) for _ in range(rng.choice([1, 2, 2, 3]))], "kind": "list"})
+            inner = ["cmp", rng.choice(GEN.CMP), ["attr", ["var", "x"], rng.choice("ab")], ["attr", ["var", u], rng.choice("ab")]]
+            return [rng.choice(["exists", "forall"]), u, inner]
+        return ["cmp", rng.choice(GEN.CMP), ["attr", ["var", "x"], rng.choice("ab")], ["lit", rng.randint(0, 2)]]
+
+    def rule(depth):
+        r = {"id": f"r{next(counter)}", "cond": cond(), "children": []}
+        if depth > 0:
+            for _ in range(rng.choice([1, 1, 2, 3])):
+                r["children"].append([rng.choice(["ref", "alt", "alt"]), rule(depth - 1)])
+        return r
+
+    root = rule(rng.randint(1, 2))
+    # the base first binds x, then (mostly) asks a quantified condition about it
+    root["cond"] = ["and", ["cmp", ">=", ["attr", ["var", "x"], "a"], ["lit", 0]], root["cond"]]
+    return {"world": world, "vars": vars_, "qvars": qvars, "rule": root, "profile": "quant"}
+
+
 def gen(rng, tier, ctx):
     if rng.random() < 0.12:
         return gen_flat(rng)
+    if rng.random() < 0.1:
+        return gen_quant(rng)
     if rng.random() < 0.2:
         world = G.gen_world(rng, n=rng.randint(4, 7))
         vars_ = GEN.gen_vars(rng, world, 2, allow_empty=False)
@@ -323,6 +358,8 @@ def cond_skeleton(rule):
     def sk(c):
         if c[0] in ("and", "not"):
             return c[0] + "(" + ",".join(sk(x) for x in c[1:]) + ")"
+        if c[0] in ("exists", "forall"):
+            return c[0] + "(" + sk(c[2]) + ")"
         return c[0] + ":" + "".join(sorted(G.cond_vars(c)))
     return sk(rule["cond"]) + "[" + ",".join(cond_skeleton(ch) for _, ch in rule["children"]) + "]"
 
@@ -348,7 +385,7 @@ def build_and_run(spec, m, objs):
     from krrood.entity_query_language.quantify_entity import an
     from krrood.entity_query_language.conclusion import Add
     from krrood.entity_query_language.rule import refinement, alternative, next_rule
-    bspec = {"world": spec["world"], "vars": spec["vars"], "derived": spec.get("derived", []), "cond": None,
+    bspec = {"world": spec["world"], "vars": spec["vars"] + spec.get("qvars", []), "derived": spec.get("derived", []), "cond": None,
              "select": [["var", spec["vars"][0]["name"]]], "mode": "entity"}
     b = G.build(bspec, m, objs)
     V = b.V
@@ -369,6 +406,10 @@ def build_and_run(spec, m, objs):
             return E.and_(bc(c[1]), bc(c[2]))
         if k == "not":
             return E.not_(bc(c[1]))
+        if k == "exists":
+            return E.exists(V[c[1]], bc(c[2]))
+        if k == "forall":
+            return E.for_all(V[c[1]], bc(c[2]))
         if k == "pred":
             return getattr(m, c[1])(*[bt(t) for t in c[2]])
         if k == "hastype":
@@ -457,7 +498,7 @@ def run(spec, ctx):
 
         def holds(r, A=A):
             s = dict(ospec, cond=r["cond"], select=[["var", n] for n in names], mode="set_of",
-                     vars=[dict(v, dom=[idmap[id(A[v["name"]])]], kind="list") for v in spec["vars"]])
+                     vars=[dict(v, dom=[idmap[id(A[v["name"]])]], kind="list") for v in spec["vars"]] + spec.get("qvars", []))
             return bool(G.oracle(s, m, objs))
 
         fired, ids = interpret(spec["rule"], holds)
@@ -555,4 +596,9 @@ def witnesses():
     # two refinements of one rule over two variables whose conclusions use only the first variable: the inner
     # selector remembered a conclusion that the outer refinement then overrode
     w["overridden-conclusion-remembered"] = json.loads('{"world": [{"cls": "Q", "a": 0, "b": 0, "items": [2, 2], "kids": [1, 4], "ref": 1, "d": {"k": 0}, "name": "o0", "f": "0.0", "fs": [1, 2]}, {"cls": "P", "a": 2, "b": 2, "items": [], "kids": [2], "ref": 1, "d": {"k": 2}, "name": "o1", "f": "0.0", "fs": []}, {"cls": "Q", "a": 1, "b": 1, "items": [1], "kids": [0, 0], "ref": null, "d": {"k": 2}, "name": "o2", "f": "0.0", "fs": [0, 1, 2]}, {"cls": "P", "a": 2, "b": 1, "items": [], "kids": [], "ref": 0, "d": {"k": 2}, "name": "o3", "f": "0.0", "fs": [0, 2]}, {"cls": "P", "a": 2, "b": 0, "items": [1], "kids": [], "ref": 1, "d": {"k": 0}, "name": "o4", "f": "0.0", "fs": [2]}], "vars": [{"name": "x", "type": "P", "dom": [3, 1, 2], "kind": "list"}, {"name": "y", "type": "P", "dom": [4, 1], "kind": "gen"}], "rule": {"id": "r0", "cond": ["and", ["cmp", "!=", ["attr", ["var", "x"], "b"], ["attr", ["var", "y"], "a"]], ["cmp", "<=", ["attr", ["var", "x"], "a"], ["lit", 2]]], "children": [["ref", {"id": "r1", "cond": ["contains", ["attr", ["var", "y"], "items"], ["lit", 1]], "children": [], "concl": "x"}], ["ref", {"id": "r3", "cond": ["cmp", "<=", ["attr", ["var", "x"], "a"], ["lit", 1]], "children": [], "concl": "x"}]], "concl": "xy"}}')
+    # an alternative of a base rule that ends in a quantified condition
+    w["quantifier-yields-nothing-when-false"] = {"world": world, "vars": X, "profile": "quant",
+        "qvars": [{"name": "u0", "type": "P", "dom": [0, 6], "kind": "list"}],
+        "rule": {"id": "r0", "cond": ["and", base, ["forall", "u0", ["cmp", ">", ["attr", ["var", "x"], "a"], ["attr", ["var", "u0"], "a"]]]],
+                 "children": [["alt", {"id": "r1", "cond": ["cmp", "==", ["attr", ["var", "x"], "b"], ["lit", 1]], "children": []}]]}}
     return w
